@@ -310,6 +310,7 @@ def run(ck, m):
 
 
 MUTANTS = [
+    M("widget-pins-method", "widget/_urwid.py", "UrwidImage.__init__", "            style_args[\"split_cells\"] = True\n", "            style_args[\"split_cells\"] = True\n        if image._render_methods:\n            style_args.setdefault(\"method\", image._render_method)\n", {"R3"}),
     M("revert-fix-unset", CM, "BaseImage.set_render_method",
       "                if \"_default_render_method\" in vars(cls):", "                if True:", {"R1"}),
     M("wrong-guard-key", CM, "BaseImage.set_render_method", "if \"_default_render_method\" in vars(cls):", "if \"_render_method\" in vars(cls):", {"R1"}),
